@@ -1573,14 +1573,16 @@ impl LsmTree {
         }
         #[cfg(rescrv_blue_verif)]
         crate::verif::yield_point("compaction:linked");
-        let ret = self.apply_manifest_compaction(compaction, discard_setsum, mani_edit, outputs);
+        let ret = self.apply_manifest_compaction(
+            compaction,
+            discard_setsum,
+            mani_edit,
+            outputs,
+            paths,
+            compaction_dir,
+        );
         #[cfg(rescrv_blue_verif)]
         crate::verif::yield_point("compaction:applied");
-        for path in paths.into_iter() {
-            COMPACTION_REMOVE.click();
-            remove_file(&path).with_debug_field("path", &path)?;
-        }
-        remove_dir(&compaction_dir).with_debug_field("dir", &compaction_dir)?;
         ret
     }
 
@@ -1626,10 +1628,36 @@ impl LsmTree {
         &self,
         compaction: Compaction,
         discard_setsum: Setsum,
+        mani_edit: Edit,
+        outputs: Vec<SstMetadata>,
+        staged: Vec<PathBuf>,
+        compaction_dir: PathBuf,
+    ) -> Result<(), SError> {
+        let _mutex = self.compaction.lock().unwrap();
+        let ret = self.apply_manifest_compaction_locked(
+            compaction,
+            discard_setsum,
+            mani_edit,
+            outputs,
+        );
+        // Remove the staging directory before the lock is released.  It is named by the setsum of
+        // the inputs, and the next compaction chosen may be over exactly this compaction's
+        // outputs, which have the same setsum when nothing was discarded.
+        for path in staged.into_iter() {
+            COMPACTION_REMOVE.click();
+            remove_file(&path).with_debug_field("path", &path)?;
+        }
+        remove_dir(&compaction_dir).with_debug_field("dir", &compaction_dir)?;
+        ret
+    }
+
+    fn apply_manifest_compaction_locked(
+        &self,
+        compaction: Compaction,
+        discard_setsum: Setsum,
         mut mani_edit: Edit,
         outputs: Vec<SstMetadata>,
     ) -> Result<(), SError> {
-        let _mutex = self.compaction.lock().unwrap();
         let version = self.take_snapshot();
         let tree_setsum = version.version.compute_setsum();
         let output_setsum = tree_setsum - discard_setsum;
